@@ -26,7 +26,15 @@ MANIFEST = dict(
          'is a best fit; a deferred free acts exactly like an immediate free at the next malloc/free; the lock created '
          'by Heap.__init__ is not re-entrant and free() try-locks it (read from heap.py on every run), hence a free '
          'issued from inside malloc/free by the same thread, at any point, is exactly a deferred free (and with a '
-         're-entrant lock coalescing would fail: refutation by computation). Correspondence of '
+         're-entrant lock coalescing would fail: refutation by computation). THREADS: a small-step interleaving model '
+         '(any number of threads, blocking lock in malloc, try-lock in free, one drain iteration per step, appends to the '
+         'pending list at any moment) whose cut into locked/unlocked statements is read from heap.py on every run; every '
+         'interleaved run ends in the state of the sequential model on a computed op list and hands out the same blocks '
+         '(refinement, no hypothesis), with valid frees no step raises and the invariant holds after every step, the '
+         'block handed out is well placed and disjoint from all live blocks at that moment, mutual exclusion, no deadlock. '
+         'FORK: the first malloc in a forked child uses nothing inherited (one thread); with two threads in the child the '
+         'unlocked re-initialisation races (refuted by a computed witness, reproduced on the real code: known-finding '
+         'candidate C14:fork-reinit-race). Correspondence of '
          'the real Heap (stub arenas; real mmap arenas with byte patterns in the thorough tier) with the model on '
          'random and adversarial histories, plus an independent monitor of the property on the implementation traces.',
     note='Trusted: Coq kernel, translate/pykernel.py + translate/kernels/heap.py, Lib/PyVal.v; stdlib bisect (modelled as '
@@ -34,7 +42,8 @@ MANIFEST = dict(
          'association lists; mmap and the page size being a power of two >= 8; the heap lock makes malloc/free atomic '
          '(a free that finds the lock taken is the FreeDeferred op; that the thread holding it finds it taken too is '
          'the extracted fact lock_reentrant = false plus threading.Lock semantics); GIL-atomic list.append/pop for the pending list; '
-         'the post-fork re-initialisation in malloc is not modelled.',
+         'real threads are driven line by line by harness/heap_conc.py (sys.settrace + a proxy around the lock heap.py '
+         'creates): preemption between two bytecodes of one line is not exercised.',
     technique='Coq invariant proof over the faithful index-level model + translator-regenerated arithmetic kernels + '
               'differential correspondence + independent trace monitor',
     ref='5.14',
@@ -460,6 +469,12 @@ def conc_boundary_cases(kmax=50):
                 out.append(dict(base, conc=dict(progs=progs, sched=[[0, k], [1, 99], [2, 99], [0, 99]])))
                 if k % 4 == 1:     # the third thread first
                     out.append(dict(base, conc=dict(progs=progs, sched=[[0, k], [2, 99], [1, 99], [0, 99]])))
+        # F: the pending list already holds P and D (frees that found the lock taken): thread 0's malloc drains
+        #    them; frees of B and E arrive BETWEEN two iterations of the drain loop / inside the _free of a drained block
+        pre = dict(base, ops=L['ops'] + [['d', 0], ['d', 3]])
+        for k in range(0, kmax + 34, 1 if L['pg'] == 4096 else 3):
+            out.append(dict(pre, conc=dict(progs=[[['m', 8]], [['f', 1]], [['f', 4]]],
+                                           sched=[[0, k], [1, 99], [2, 99], [0, 99]])))
     return out
 
 
@@ -513,6 +528,48 @@ def block_alarm(n, b, arenas, where):
         return ('C14:too-small', 'malloc(%d) returned %s %s' % (n, b, where))
     if not (0 <= b[1] < b[2] <= arenas[b[0]]):
         return ('C14:outside-arena', 'malloc(%d) returned %s, arenas %s %s' % (n, b, arenas, where))
+    return None
+
+
+def reinit_cases(quick=True):
+    """a heap object inherited through fork() (os.getpid() != _lastpid) used by TWO threads of the child: thread 0
+    is interrupted after k pieces of its first malloc (before / inside / after the unlocked self.__init__()), then
+    thread 1 allocates.  stale_pid: _lastpid is made stale in this process; fork: a real forked child."""
+    base = dict(pg=4096, size=4096, ops=[['m', 16], ['m', 16], ['f', 0]])
+    out = []
+    for k in range(0, 18):
+        out.append(dict(base, conc=dict(progs=[[['m', 24]], [['m', 8]]], sched=[[0, k], [1, 99], [0, 99]], stale_pid=True)))
+    for k in ((5, 9) if quick else range(0, 18)):
+        out.append(dict(base, conc=dict(progs=[[['m', 24]], [['m', 8]]], sched=[[0, k], [1, 99], [0, 99]], fork=True)))
+    return out
+
+
+def reinit_monitor(c, out):
+    """after the re-initialisation nothing of the parent may be used: every block comes from an arena the child's
+    heap lists, no call raises, and the heap records exactly the blocks handed out in the child"""
+    sig = 'C14:fork-reinit-race'
+    how = ('in a forked child' if c['conc'].get('fork') else 'on a heap whose _lastpid is stale (as in a forked child)')
+    pre = ('two threads %s, thread 0 interrupted after %d pieces of its first malloc (the pid test and '
+           'self.__init__() run outside the lock; __init__ sets _lastpid first): ' % (how, c['conc']['sched'][0][1]))
+    if out.get('stuck') or out.get('child_died'):
+        return (sig, pre + 'a thread never returned')
+    for t, k, i, op, x in out['trace']:
+        if k == 'exc':
+            import re
+            return (sig, pre + 'malloc(%d) in thread %d raised %s' % (
+                op[1], t, re.sub(r'<[^>]* object at 0x[0-9a-f]+>', '<arena>', x)))
+    for t, k, i, op, x in out['trace']:
+        if k == 'ret' and op[0] == 'm' and x[0] < 0:
+            return (sig, pre + 'malloc(%d) in thread %d was served from the tables inherited from the parent and '
+                               'returned bytes [%d, %d) of the PARENT\'s arena (shared memory, free in the parent: it '
+                               'will be handed out there again); the child\'s heap lists arenas %s and records %s as live; '
+                               'all results %s' % (op[1], t, x[1], x[2], (out.get('snap') or {}).get('arenas'),
+                                                   (out.get('snap') or {}).get('alloc'), out['results']))
+    if out['snap'] is None:
+        return (sig, pre + 'the heap holds blocks of arenas it does not list: %s' % out.get('live_raw'))
+    m = conc_monitor(dict(c, ops=[]), dict(out, got=[]))
+    if m:
+        return (sig, pre + m[1])
     return None
 
 
@@ -587,7 +644,10 @@ def judge_conc(res, cases, outs, tag='conc'):
     terms, idx = [], []
     alarmed = 0
     for i, (c, o) in enumerate(zip(cases, outs)):
-        m = conc_monitor(c, o)
+        reinit = c['conc'].get('stale_pid') or c['conc'].get('fork')
+        m = reinit_monitor(c, o) if reinit else conc_monitor(c, o)
+        if reinit and not m:
+            continue        # (the interleaving model has no re-initialisation: judged by the monitor only)
         if m:
             alarmed += 1
             res.alarms.append(dict(signature=m[0], what='%s; case %s' % (m[1], json.dumps(c)[:700]),
@@ -607,15 +667,25 @@ def judge_conc(res, cases, outs, tag='conc'):
 
 def correspond_conc(res, n_random, search=0, kmax=50):
     rng = random.Random(res.seed * 4409 + 1415 + 104729 * search)
-    cases = (conc_boundary_cases(kmax) if not search else []) + gen_conc_random(rng, n_random)
+    cases = (conc_boundary_cases(kmax) + reinit_cases(res.tier == 'quick') if not search else []) \
+        + gen_conc_random(rng, n_random)
     outs = core.run_driver('heap_driver.py', cases)
     judge_conc(res, cases, outs, 'conc%d' % search)
     kinds = {}
     blocked = 0
     deferred = 0
     drained_by_other = 0
+    mid_drain = 0
     for o in outs:
         ev = o.get('events') or []
+        draining = None
+        for t, k in ev:
+            if k in ('acq', 'try_ok'):
+                draining = t
+            elif k == 'drained' and t == draining:
+                draining = None
+            elif k == 'append' and draining is not None and t != draining:
+                mid_drain += 1
         for t, k in ev:
             kinds[k] = kinds.get(k, 0) + 1
         deferred += sum(1 for t, k in ev if k == 'try_fail')
@@ -636,7 +706,8 @@ def correspond_conc(res, n_random, search=0, kmax=50):
                      'a scheduling point): 5 three-thread scenarios x 2 layouts with thread 0 interrupted after every '
                      'k-th piece, plus random programs/schedules; non-trivial = at least two threads performed events',
                 thread_cases=len(cases), thread_event_histogram=kinds, thread_waits_for_held_lock=blocked,
-                thread_frees_that_found_the_lock_taken=deferred, thread_pending_blocks_drained=drained_by_other)
+                thread_frees_that_found_the_lock_taken=deferred, thread_pending_blocks_drained=drained_by_other,
+                thread_appends_during_a_drain_loop=mid_drain)
     return cases, outs
 
 
@@ -969,9 +1040,15 @@ def run(res):
         n, lc, lo, nn = 260, 2, 400, 200
     else:
         n, lc, lo, nn = 6000, 30, 2000, 4000
+    import time
+    t0 = time.time()
     correspond(res, n, lc, lo, nn)
+    t1 = time.time()
     correspond_conc(res, 120 if res.tier == 'quick' else 4000)
+    t2 = time.time()
     correspond_fork(res, 8 if res.tier == 'quick' else 300)
+    res.cov['stage_wall_s'] = dict(sequential_histories=round(t1 - t0, 1), threads=round(t2 - t1, 1),
+                                   fork=round(time.time() - t2, 1))
     if res.broken and not res.alarms and res.tier == 'quick':
         correspond_conc(res, 1500, search=1)
     if res.broken and not res.alarms and res.tier == 'quick':
@@ -982,7 +1059,9 @@ def run(res):
         real_arena(res, 300)
         threads_scenario(res, 6)
     res.assumptions += [
-        'the heap lock serialises malloc/free; a free that finds it taken only appends to the pending list (FreeDeferred)',
+        'threading.Lock gives mutual exclusion (C17); the steps under the lock of the interleaving model are one drain '
+        'iteration / the rest of the critical section (justified by the mutual-exclusion theorem and the commutation of the '
+        'body with appends to the pending list)',
         'threading.Lock (the kind of lock extracted from Heap.__init__) cannot be acquired again by the thread that '
         'holds it; finalisers run by the garbage collector run in the thread that triggered the collection, between '
         'two lines of heap.py (sys.settrace line granularity in the driver; the model has seven points)',
@@ -990,7 +1069,7 @@ def run(res):
         'mmap.PAGESIZE is a power of two >= 8',
         'bisect.bisect_left/insort (C implementation) behave as specified on sorted lists',
         'frees are valid: the block was returned by malloc and is freed once (BufferWrapper guarantees this through Finalize)',
-        'the re-initialisation of the heap in a forked child (malloc: os.getpid() != _lastpid) is not modelled',
+        'a forked child shares the parent\'s arenas (MAP_SHARED files): not modelled beyond "arenas are objects"',
     ]
 
 
@@ -1004,6 +1083,28 @@ def replay(path):
     if 'threads' in c:
         print('thread scenario re-run; final state:', json.dumps(out['snap'])[:2000], out['errors'])
         return 0
+    if 'conc' in c:
+        print('case:', json.dumps(c))
+        print('events of the real threads:', json.dumps(out.get('events')))
+        print('calls/returns:', json.dumps(out.get('trace')))
+        reinit = c['conc'].get('stale_pid') or c['conc'].get('fork')
+        m = reinit_monitor(c, out) if reinit else conc_monitor(c, out)
+        print('monitor:', m or 'property holds on this trace')
+        codes = []
+        if not m and out.get('snap') and not reinit:
+            codes, _ = core.coq_eval('C14r', HEADER_CONC, [[conc_term(c, out)]])
+            print('interleaving model agrees' if not codes else 'interleaving model disagrees')
+        return 1 if (m or codes) else 0
+    if 'fork' in c:
+        print('case:', json.dumps(c))
+        print('child:', json.dumps(out['child'])[:2000])
+        m = fork_monitor(c, out)
+        print('monitor:', m or 'property holds on this trace')
+        codes = []
+        if not m:
+            codes, _ = core.coq_eval('C14r', HEADER_FORK, [[fork_term(c, out)]])
+            print('model agrees' if not codes else 'model disagrees')
+        return 1 if (m or codes) else 0
     print('case:', json.dumps(c))
     print('implementation now:', json.dumps(out['obs']))
     m = monitor(c, out)
